@@ -311,7 +311,7 @@ SUBS = {"eval1d": Sub(pred_1d, strategy=cases_1d), "eval2d": Sub(pred_2d, strate
 
 
 def jobs(tier):
-    n1, n2, n3 = (350, 60, 150) if tier == "quick" else (9000, 1500, 3000)
+    n1, n2, n3 = (350, 60, 150) if tier == "quick" else (27000, 4500, 9000)
     return ([{"sub": "eval1d", "n": n1, "shard": i} for i in range(8)] +
             [{"sub": "eval2d", "n": n2, "shard": i} for i in range(5)] +
             [{"sub": "paths", "n": n3, "shard": i} for i in range(3)])
